@@ -67,7 +67,39 @@ def gen_case(rng, thorough):
         ops.append(('fl',))
     # raw payloads are NOT multiples of the group size: the average must then carry exactly the rounding of the
     # per-tensor allreduce, (1/n) * (sum over the group), not of any other order of scaling and summing
-    return {'world': world, 'groups': groups, 'cap': cap, 'ops': ops, 'raw': rng.random() < 0.35}
+    return {'world': world, 'groups': groups, 'cap': cap, 'ops': ops, 'raw': rng.random() < 0.35,
+            'rankorder': rng.randrange(1, 10**6) if rng.random() < 0.4 else 0}
+
+
+def rank_ops(case, rank):
+    """the op sequence rank `rank` executes.  With case['rankorder'] every rank interleaves its groups in its own order
+    inside each fill/flush cycle — legal: only the sequence on each single group has to agree between its members"""
+    ops = case['ops']
+    if not case.get('rankorder'):
+        return list(ops)
+    import random as _r
+    out, cyc = [], []
+    for op in list(ops) + [None]:
+        if op is None or op[0] == 'fl':
+            per = {}
+            for o in cyc:
+                per.setdefault(o[1], []).append(o)
+            keys = sorted(per)
+            rr_ = _r.Random(case['rankorder'] * 1000003 + rank * 7919 + len(out))
+            rr_.shuffle(keys)
+            order = []
+            # rank-dependent rotation of the groups, then a random merge that keeps each group's own order
+            queues = [list(per[k]) for k in keys]
+            while any(queues):
+                q = rr_.choice([q for q in queues if q])
+                order.append(q.pop(0))
+            out += order
+            cyc = []
+            if op is not None:
+                out.append(op)
+        else:
+            cyc.append(op)
+    return out
 
 
 def payload(tid, rank, shape, dt, sym, gsize):
@@ -96,7 +128,7 @@ def run_case(ctx, case, seed):
         tdc = TorchDistributedCommunicator(bucket_cap_mb=case['cap'] / 1e6)
         w = simdist._tls.world
         per_op, futs = [], {}
-        for op in ops:
+        for op in rank_ops(case, rank):
             before = len(w.trace[rank])
             if op[0] == 'fl':
                 tdc.flush_allreduce_buckets()
@@ -130,7 +162,7 @@ def run_case(ctx, case, seed):
 def check_case(ctx, case, seed, lines, pend):
     world, groups, ops = case['world'], case['groups'], case['ops']
     jcase = {'world': world, 'groups': [list(g) for g in groups], 'cap': case['cap'],
-             'ops': [list(o) for o in ops], 'schedule_seed': seed, 'raw': bool(case.get('raw'))}
+             'ops': [list(o) for o in ops], 'schedule_seed': seed, 'raw': bool(case.get('raw')), 'rankorder': case.get('rankorder', 0)}
     wd, res = run_case(ctx, case, seed)
     if wd.stalled or wd.exceptions or wd.errors:
         ctx.fail(f'run failed: stalled={wd.stalled} exceptions={dict(list(wd.exceptions.items())[:2])} '
@@ -174,7 +206,7 @@ def check_case(ctx, case, seed, lines, pend):
         # capacity clause, from the observed events only: whenever this rank issues the all-reduce of a bucket that holds
         # two or more of its tensors, their bytes fit the capacity (the implementation decides WHEN; the sizes are ours)
         open_b = {}
-        for op, po in zip(ops, per_op):
+        for op, po in zip(rank_ops(case, rank), per_op):
             if op[0] == 'fl':
                 open_b = {}
                 continue
@@ -202,7 +234,7 @@ def check_case(ctx, case, seed, lines, pend):
                              f'{sum(open_b[gi])} bytes, the capacity is {capb} bytes', jcase, 'capacity')
         # model line for this rank
         mops, impl = [], []
-        for op, po in zip(ops, per_op):
+        for op, po in zip(rank_ops(case, rank), per_op):
             if op[0] == 'fl':
                 mops.append('fl')
             elif po is None:
@@ -258,6 +290,12 @@ def run(ctx):
         {'world': 2, 'groups': [(0, 1)], 'cap': 10**9,
          'ops': [('rb', 0, 0, (3,), 2, False, False), ('rb', 0, 1, (3,), 0, False, True),
                  ('rb', 0, 2, (2, 2), 1, True, True), ('fl',)]},
+        # three pairwise groups forming a cycle over three ranks, each rank using its two groups in its own order: the
+        # all-reduces of one flush are all launched before any of them is waited for
+        *[{'world': 3, 'groups': [(0, 1, 2), (0, 1), (1, 2), (0, 2)], 'cap': 10**9, 'rankorder': 101 + j,
+           'ops': [('rb', 1, 0, (2,), 0, False, False), ('rb', 2, 1, (3,), 0, False, True), ('rb', 3, 2, (2, 2), 0, True, False),
+                   ('rb', 1, 3, (1,), 0, False, False), ('fl',), ('rb', 3, 4, (2,), 0, False, False), ('rb', 2, 5, (2,), 0, False, False),
+                   ('rb', 1, 6, (2,), 0, False, True), ('fl',)]} for j in range(12)],
         # zero-element tensors alone in a bucket
         {'world': 2, 'groups': [(0, 1)], 'cap': 16,
          'ops': [('rb', 0, 0, (0, 3), 0, False, False), ('rb', 0, 1, (17,), 0, False, False),
@@ -348,6 +386,7 @@ def replay(ctx, payload):
     c = payload.get('case', {})
     if 'ops' in c:
         case = {'world': c['world'], 'groups': [tuple(g) for g in c['groups']], 'cap': c['cap'], 'raw': c.get('raw', False),
+                'rankorder': c.get('rankorder', 0),
                 'ops': [tuple(tuple(x) if isinstance(x, list) else x for x in o) for o in c['ops']]}
         check_case(ctx, case, c.get('schedule_seed', 0), [], [])
     for f in ctx.failures[:5]:
